@@ -40,8 +40,9 @@ ActionTakesValues(act) == act \in {"Set", "Append"}
 \* a built argument; `idx` (positional index) is filled in by BuildArgs
 BuildArg(a) ==
   LET act == BuildAction(a)
-      nmin == IF a.nset THEN a.nmin ELSE IF ActionTakesValues(act) THEN 1 ELSE 0
-      nmax == IF a.nset THEN a.nmax ELSE IF ActionTakesValues(act) THEN 1 ELSE 0
+      \* more than one value name fixes the number of values unless num_args was given (arg.rs 4544-4550)
+      nmin == IF a.nset THEN a.nmin ELSE IF a.valnames > 1 THEN a.valnames ELSE IF ActionTakesValues(act) THEN 1 ELSE 0
+      nmax == IF a.nset THEN a.nmax ELSE IF a.valnames > 1 THEN a.valnames ELSE IF ActionTakesValues(act) THEN 1 ELSE 0
       vp == IF a.vp.k # "string" THEN a.vp
             ELSE IF act \in {"SetTrue", "SetFalse"} THEN BoolVP
             ELSE IF act = "Count" THEN CountVP ELSE StringVP
